@@ -1070,6 +1070,24 @@ fn run_segments(env: &Env, out: &mut RunOutcome, dg: &mut Digest) {
                 if !env.faulted {
                     // the permuted collection is only equivalent while nothing is damaged
                     runs.push(("molecules_alt.json", "gc_segments_alt.json", b2));
+                    // serde round trip of ChemicalRecord, SegmentRecord and BinaryRecord<String, f64>:
+                    // the re-written collection must give a model with identical behaviour
+                    let rt = (|| -> Result<(), String> {
+                        let mols: Vec<ChemicalRecord> = serde_json::from_value(read_value(&env.disk.path("molecules.json"))?).map_err(|e| e.to_string())?;
+                        std::fs::write(env.disk.path("molecules_rt.json"), serde_json::to_string(&mols).map_err(|e| e.to_string())?).map_err(|e| e.to_string())?;
+                        let segs: Vec<SegmentRecord<feos::gc_pcsaft::GcPcSaftRecord>> = serde_json::from_value(read_value(&env.disk.path("gc_segments.json"))?).map_err(|e| e.to_string())?;
+                        std::fs::write(env.disk.path("gc_segments_rt.json"), serde_json::to_string(&segs).map_err(|e| e.to_string())?).map_err(|e| e.to_string())?;
+                        let bins: Vec<BinaryRecord<String, f64>> = serde_json::from_value(read_value(&env.disk.path("seg_binary.json"))?).map_err(|e| e.to_string())?;
+                        std::fs::write(env.disk.path("seg_binary_rt.json"), serde_json::to_string(&bins).map_err(|e| e.to_string())?).map_err(|e| e.to_string())?;
+                        Ok(())
+                    })();
+                    match rt {
+                        Ok(()) => {
+                            out.count("op.round_trip_gc_records", 1);
+                            runs.push(("molecules_rt.json", "gc_segments_rt.json", with_binary.then(|| env.disk.path("seg_binary_rt.json"))));
+                        }
+                        Err(e) => out.violate("round-trip-unreadable", "roundtrip", format!("{what}: group-contribution records cannot be serialised and read back: {e}")),
+                    }
                 }
                 let mut behaviours = Vec::new();
                 out.count("oracle.compared", 1);
